@@ -270,7 +270,19 @@ func vpipe(args []string) error {
 				bc := pre[idx%len(callKinds)]
 				idx /= len(callKinds)
 				names = append(names, bc.kind.name)
-				pj, err := doCall(bc, reuse)
+				// two ways of holding the reused object: the usual pointer chain (pj, err = Parse(b, pj)), and a holder kept BY
+				// VALUE whose address is passed - with the latter the parser state stays attached across a failed call as well
+				arg := reuse
+				var keep simdjson.ParsedJson
+				if reuse != nil && h%2 == 1 {
+					keep = *reuse
+					arg = &keep
+				}
+				pj, err := doCall(bc, arg)
+				if err != nil && arg == &keep {
+					reuse = &keep // the by-value holder lives on after the failure
+					names[len(names)-1] += "(held by value)"
+				}
 				id := fmt.Sprintf("%s-reuse-%d-%d", *prop, h, c)
 				cfg := map[string]interface{}{"history": append([]string{}, names...)}
 				check(id+":"+fmt.Sprint(names), bc, pj, err, cfg)
